@@ -296,6 +296,11 @@ PROPS = {
             'third (delete only what was registered for that container) is only_registered_for_this / others_kept',
         ],
     },
+    'C18': {
+        'contract_modules': ['c18_trace'],
+        'functions': ['treadmill.trace._zk:cleanup', 'treadmill.trace._zk:upload_batch', 'treadmill.trace.app.zk:cleanup_trace'],
+        'assumptions': [],
+    },
     'C19': {
         'contract_modules': ['c19_allocation_api'],
         'functions': ['treadmill.api.allocation:_check_limit', 'treadmill.api.allocation:_calc_free',
